@@ -1,6 +1,9 @@
 import TrackVerif.Common.Proto
 import TrackVerif.LT.Protocol
 import TrackVerif.LT.ProtocolCount
+import TrackVerif.LT.Schema
+import TrackVerif.LT.Spec
+import TrackVerif.Generated.LT
 /-
   Line-protocol side of the LapTimer area.
 
@@ -9,7 +12,7 @@ import TrackVerif.LT.ProtocolCount
            delivered=<bytes> same=<0|1 prefix/complete> leaked=<n>
 -/
 namespace TrackVerif.LT.Driver
-open TrackVerif Proto LT.Protocol
+open TrackVerif Proto LT.Protocol TrackVerif.Gen TrackVerif.LT
 
 def field (toks : List String) (k : String) : Option String :=
   (toks.find? (·.startsWith (k ++ "="))).map fun t => (t.drop (k.length + 1)).toString
@@ -52,8 +55,217 @@ def handleRun (toks impl : List String) : String :=
       else "OK nt=1"
   | _, _, _, _, _, _, _, _, _ => "BAD"
 
+/-! ### Values over the protocol -/
+
+def genSchema : Schema :=
+  { structs := Gen.LT.structs, named := Gen.LT.named, methodLits := Gen.LT.methodLits,
+    marshalers := Gen.LT.marshalers, unmarshalers := Gen.LT.unmarshalers, replacer := Gen.LT.replacer }
+
+/-- Go string bytes → runes the way `range` / EscapeText see them: an invalid byte is U+FFFD -/
+def goRunes : Nat → List UInt8 → List Char
+  | 0, _ => []
+  | _, [] => []
+  | fuel + 1, b :: bs =>
+    let n := b.toNat
+    let cont (x : UInt8) : Option Nat := if x.toNat / 64 = 2 then some (x.toNat % 64) else none
+    let bad := Text.replacementChar :: goRunes fuel bs
+    if n < 0x80 then Char.ofNat n :: goRunes fuel bs
+    else if 0xC2 ≤ n ∧ n < 0xE0 then
+      match bs with
+      | b1 :: r => (match cont b1 with | some c1 => Char.ofNat ((n % 32) * 64 + c1) :: goRunes fuel r | none => bad)
+      | _ => bad
+    else if 0xE0 ≤ n ∧ n < 0xF0 then
+      match bs with
+      | b1 :: b2 :: r =>
+        (match cont b1, cont b2 with
+         | some c1, some c2 =>
+           let v := (n % 16) * 4096 + c1 * 64 + c2
+           if v < 0x800 ∨ (0xD800 ≤ v ∧ v ≤ 0xDFFF) then bad else Char.ofNat v :: goRunes fuel r
+         | _, _ => bad)
+      | _ => bad
+    else if 0xF0 ≤ n ∧ n < 0xF5 then
+      match bs with
+      | b1 :: b2 :: b3 :: r =>
+        (match cont b1, cont b2, cont b3 with
+         | some c1, some c2, some c3 =>
+           let v := (n % 8) * 262144 + c1 * 4096 + c2 * 64 + c3
+           if v < 0x10000 ∨ v > 0x10FFFF then bad else Char.ofNat v :: goRunes fuel r
+         | _, _, _ => bad)
+      | _ => bad
+    else bad
+
+/-- parse the reflection dump -/
+partial def parseV : List String → Option (V × List String)
+  | [] => none
+  | t :: rest =>
+    if t == "(" then parseSeq rest ")" [] |>.map fun (vs, r) => (V.struct vs, r)
+    else if t == "[" then parseSeq rest "]" [] |>.map fun (vs, r) => (V.list vs, r)
+    else if t == "N" then some (.nil, rest)
+    else if t == "P" then (parseV rest).map fun (v, r) => (V.ptr v, r)
+    else if t.startsWith "s" then
+      let h := (t.drop 1).toString
+      (bytesOfHex h).map fun bs => (V.str (goRunes (bs.length + 1) bs), rest)
+    else if t.startsWith "i" then ((t.drop 1).toString.toInt?).map fun i => (V.int i, rest)
+    else if t.startsWith "f" then (natOfHex? (t.drop 1).toString).map fun n => (V.flt (UInt64.ofNat n), rest)
+    else if t == "b0" then some (.bool false, rest)
+    else if t == "b1" then some (.bool true, rest)
+    else if t.startsWith "t" then
+      match (t.drop 1).toString.splitOn "." with
+      | [a, b] => (a.toInt?).bind fun sec => (b.toNat?).map fun ns => (V.time sec ns, rest)
+      | _ => none
+    else none
+where
+  parseSeq (toks : List String) (close : String) (acc : List V) : Option (List V × List String) :=
+    match toks with
+    | [] => none
+    | t :: r => if t == close then some (acc.reverse, r) else
+      match parseV toks with
+      | some (v, r') => parseSeq r' close (v :: acc)
+      | none => none
+
+/-- canonical dump for comparison with the implementation's decoded value; strings are compared
+    as rune sequences (hex of their UTF-8) -/
+partial def dumpV : V → String
+  | .int i => s!"i{i}"
+  | .flt b => "f" ++ hexOfNat 16 b.toNat
+  | .str s => "s" ++ hexOfString (String.ofList s)
+  | .bool b => if b then "b1" else "b0"
+  | .time sec ns => s!"t{sec}.{ns}"
+  | .nil => "N"
+  | .ptr v => "P/" ++ dumpV v
+  | .list vs => String.intercalate "/" (["["] ++ vs.map dumpV ++ ["]"])
+  | .struct fs => String.intercalate "/" (["("] ++ fs.map dumpV ++ [")"])
+
+def charsToHex (cs : List Char) : String := hexOfString (String.ofList cs)
+
+/-- whitespace-only character data between elements is layout, unless it is the whole content of
+    an element (`<note>\t</note>`) -/
+def significant : List Xml.XTok → List Xml.XTok
+  | .start n as :: .text t :: .stop m :: r => .start n as :: (if t.isEmpty then [] else [.text t]) ++ .stop m :: significant r
+  | .text t :: r => if t.all Xml.isSpace then significant r else .text t :: significant r
+  | x :: r => x :: significant r
+  | [] => []
+
+/-- an omitempty fixed-decimal field whose value is not zero but prints as zero: the recorded
+    re-encoding finding -/
+partial def roundsToZero (s : Schema) (ty : LtType) (om : Bool) (v : V) : Bool :=
+  match kindOf s 8 ty, v with
+  | .ptr t', .ptr v' => roundsToZero s t' false v'
+  | .slice t', .list vs => vs.any (roundsToZero s t' om)
+  | .structT n, .struct fs =>
+    (match headName ty with
+     | some h => if s.marshalers.contains h then false else
+        ((dataFields ((s.fieldsOf n).getD [])).zip fs).any fun (f, fv) => roundsToZero s f.typ f.omitempty fv
+     | none => false)
+  | .float, .flt b =>
+    om && b != 0 && b != 0x8000000000000000 && (match (headName ty).bind Spec.fixedPrec with
+      | some p => (match Dec.fixedQ b p with | some (_, n) => n == 0 | none => false)
+      | none => false)
+  | _, _ => false
+
+/-- -0.0 and 0.0 are the same number: the round-trip claim is about values -/
+def negZeroAsZero (d : String) : String := d.replace "f8000000000000000" "f0000000000000000"
+
+/-- C13 on the encoder's bytes: header, strict well-formedness with the expected content,
+    literal line feeds / tabs, field grammars, gzip -/
+def c13Verdict (db : V) (encB : List UInt8) (gz : String) : Option String :=
+  let dbT : LtType := .named "DB"
+  match utf8Decode (encB.length + 1) encB with
+  | none => some "VIOL clause=lt.wellformed why=invalid-utf8"
+  | some chars =>
+    match Text.stripPrefix? Xml.xmlHeader chars with
+    | none => some "VIOL clause=lt.header"
+    | some body =>
+      -- the strict tokenizer shares nothing with the printer
+      let toks := Xml.nest [] false (Xml.lexBody (body.length + 2) body)
+      if toks.any (fun t => match t with | .bad _ => true | _ => false) then some "VIOL clause=lt.wellformed why=not-xml" else
+      -- what the document must say, from the declarative schema: structure and texts
+      match marshalValue Spec.schema 64 "LapTimerDB" false dbT db with
+      | .ok want =>
+        let wantSig := significant (want.map fun t => match t with
+          | .text s => Xml.XTok.text (Text.substitute s)
+          | .start n as => .start n (as.map fun (k, v) => (k, Text.substitute v))
+          | t => t)
+        let gotSig := significant toks
+        if gotSig != wantSig then
+          let firstDiff := ((gotSig.zip wantSig).find? fun (a, b) => a != b)
+          some s!"VIOL clause=lt.wellformed why=content-differs lens={gotSig.length},{wantSig.length} first={(repr firstDiff).pretty.take 300}"
+        else if Fmt.sscanfContains body "&#xA;".toList ∨ Fmt.sscanfContains body "&#x9;".toList then
+          some "VIOL clause=lt.literal_ws"
+        else match Spec.checkGrammar [] gotSig with
+        | some (n, t) => some s!"VIOL clause=lt.field_syntax elem={n} text={charsToHex t}"
+        | none => if gz != "ok" then some s!"VIOL clause=lt.gzip got={gz}" else none
+      | _ => some "SKIP reason=marshal-unmodelled"
+
+/-- C01 on the implementation's own encode → decode → encode (representable domain only) -/
+def c01Verdict (inDomain : Bool) (db : V) (decS enc2S gz cp : String) : Option String :=
+  let dbT : LtType := .named "DB"
+  if !inDomain then none else
+  match Spec.quant Spec.schema 64 dbT db with
+  | none => none                      -- the generator left the domain: nothing is claimed
+  | some q =>
+    if decS == "err" then some "VIOL clause=lt.decode_own"
+    else if negZeroAsZero decS != negZeroAsZero (dumpV q) then some "VIOL clause=lt.roundtrip"
+    else if enc2S != "same" then
+      some (if roundsToZero Spec.schema dbT false db then "VIOL clause=lt.reencode tag=omitempty-rounds-to-zero" else "VIOL clause=lt.reencode")
+    else if cp == "differs" ∨ cp == "err" then some "VIOL clause=lt.cp1252"
+    else if gz != "ok" then some s!"VIOL clause=lt.gzip_rt got={gz}"
+    else none
+
+def handleRt (toks impl : List String) : String :=
+  match toks with
+  | pflag :: dflag :: vtoks =>
+    match parseV vtoks with
+    | some (db, []) =>
+      if impl.head? = some "panic" then "VIOL clause=lt.no_crash" else
+      if impl == ["encerr"] then "VIOL clause=lt.encode_fails" else
+      match (field impl "enc").bind bytesOfHex, field impl "dec", field impl "enc2", field impl "gz", field impl "cp" with
+      | some encB, some decS, some enc2S, some gz, some cp =>
+        let inDomain := dflag == "D=1"
+        let v13 := c13Verdict db encB gz
+        let v01 := c01Verdict inDomain db decS enc2S gz cp
+        -- the property the run serves reports its own clauses first
+        let first := if pflag == "P=C01" then v01.orElse (fun _ => v13) else v13.orElse (fun _ => v01)
+        match first with
+        | some v => v
+        | none =>
+          -- correspondence of the executable model with the implementation
+          let mEnc := encodeDoc genSchema db
+          let mDec := decodeDoc genSchema Gen.LT.cp1252 encB
+          let specEnc := encodeDoc Spec.schema db
+          match mEnc, utf8Decode (encB.length + 1) encB with
+          | .ok m, some chars =>
+            if m != chars then "CORR clause=lt.encode_model"
+            else if (match specEnc with | .ok e => e != m | _ => true) then "CORR clause=lt.gen_schema"
+            else match mDec with
+              | .ok d => if dumpV d == decS then s!"OK nt=1 dom={dflag}" else s!"CORR clause=lt.decode_model model={(dumpV d).take 300}"
+              | .err _ => if decS == "err" then s!"OK nt=1 dom={dflag}" else "CORR clause=lt.decode_model model=err"
+              | .unmodelled => "SKIP reason=decode-unmodelled"
+              | .panic _ => "BAD"
+          | .unmodelled, _ => "SKIP reason=encode-unmodelled"
+          | _, _ => "CORR clause=lt.encode_model model=err"
+      | _, _, _, _, _ => "BAD"
+    | _ => "BAD"
+  | _ => "BAD"
+
+def handleDec (hex : String) (impl : List String) : String :=
+  match bytesOfHex hex with
+  | none => "BAD"
+  | some bs =>
+    if impl.head? = some "panic" then "VIOL clause=lt.no_crash" else
+    let m := decodeDoc genSchema Gen.LT.cp1252 bs
+    match m, impl with
+    | .unmodelled, _ => "SKIP reason=unmodelled"
+    | .ok d, ["ok", dump] => if dumpV d == dump then "OK cls=ok nt=1" else s!"CORR clause=lt.decode_mut model={(dumpV d).take 200}"
+    | .err _, ["err"] => "OK cls=err nt=1"
+    | .ok _, _ => "CORR clause=lt.decode_mut model=ok"
+    | .err _, _ => "CORR clause=lt.decode_mut model=err"
+    | .panic _, _ => "BAD"
+
 def handle (args impl : List String) : String :=
   match args with
+  | "rt" :: toks => handleRt toks impl
+  | ["dec", hex] => handleDec hex impl
   | "run" :: toks => handleRun toks impl
   | _ => "BAD"
 
